@@ -366,6 +366,19 @@ def MOut.abs (before after : T) : MOut → Out
   | .conv e n => .conv e n
   | .cmp a b c => .cmp a b c
 
+/-- a history on the model machine: the final state, the answers (ranks; `none` for an operation the
+harness refuses with `bad-op` — the state is unchanged) and the total ledger; `none` = some step
+left defined behaviour -/
+def runOps (c : Cfg) : MSt → List Op → Option (MSt × List (Option Out) × Ledger)
+  | s, [] => some (s, [], {})
+  | s, op :: ops =>
+    match stepOp c s op with
+    | .ub => none
+    | .bad => (runOps c s ops).map fun (s', outs, lg) => (s', none :: outs, lg)
+    | .ok (s1, mo, l1) =>
+      (runOps c s1 ops).map fun (s', outs, lg) =>
+        (s', some (mo.abs (s.get op.reg) (s1.get op.reg)) :: outs, l1.add lg)
+
 /-! ### the abstract machine: key-ordered association lists -/
 
 structure SSt where
@@ -470,5 +483,13 @@ def specCore (c : Cfg) (s : SSt) : Op → Option (SSt × Out)
 
 /-- one operation of the abstract machine; `none`: not an operation the harness executes (`bad-op`) -/
 def specStep (c : Cfg) (s : SSt) (op : Op) : Option (SSt × Out) := if op.wf then specCore c s op else none
+
+/-- a history on the abstract machine: final state and answers -/
+def specRun (c : Cfg) : SSt → List Op → SSt × List (Option Out)
+  | s, [] => (s, [])
+  | s, op :: ops =>
+    match specStep c s op with
+    | none => ((specRun c s ops).1, none :: (specRun c s ops).2)
+    | some (s1, o) => ((specRun c s1 ops).1, some o :: (specRun c s1 ops).2)
 
 end TlxVerif.C01
